@@ -92,6 +92,12 @@ func (h *H) bytes(n int) []byte {
 func (h *H) pick(xs ...int) int { return xs[h.rng.Intn(len(xs))] }
 
 func main() {
+	if len(os.Args) > 2 && os.Args[1] == "-cli" {
+		// internal: the command-line entry point as a user's shell runs it — with the sandbox (landlock) the
+		// implementation puts itself into, which cannot be undone and therefore needs a process of its own
+		cliMain(os.Args[2:])
+		return
+	}
 	seed := flag.Int64("seed", 1, "PRNG seed")
 	tier := flag.String("tier", "quick", "quick|thorough")
 	replay := flag.String("replay", "", "file with op lines to re-run instead of generating")
